@@ -293,8 +293,8 @@ func MakeSignatureContent(
 
 			// *a or **a
 			if darg[0] == '*' {
-				switch darg[1] {
-				case '*':
+				switch {
+				case len(darg) > 1 && darg[1] == '*':
 					dargT = MakeDoubleAsteriskKeyValue()
 
 				default:
